@@ -84,10 +84,37 @@ pub fn proxy_type_from_code(c: u16) -> Option<t::ProxyAuthenType> {
 /// The private 32-bit word of a bitmask AVP, read from its derived `Debug` output
 /// (`Name { data: 192 }`).
 pub fn bitmask_word<D: std::fmt::Debug>(v: &D) -> u32 {
+    bitmask_word_opt(v).unwrap_or_else(|| panic!("glue: no data field in {:?}", v))
+}
+
+fn bitmask_word_opt<D: std::fmt::Debug>(v: &D) -> Option<u32> {
     let s = format!("{:?}", v);
-    let i = s.find("data: ").unwrap_or_else(|| panic!("glue: no data field in {}", s));
+    let i = s.find("data: ")?;
     let digits: String = s[i + 6..].chars().take_while(|c| c.is_ascii_digit()).collect();
-    digits.parse().unwrap_or_else(|_| panic!("glue: cannot parse {}", s))
+    digits.parse().ok()
+}
+
+/// The 32-bit word of a bitmask AVP value.
+pub fn bitmask_word_avp(a: &AVP) -> u32 {
+    match avp_to_spec(a).body {
+        SBody::U32(w) => w,
+        _ => 0,
+    }
+}
+
+/// The word of a bitmask AVP: from the derived `Debug` output when it has the usual shape,
+/// otherwise (the crate formats these values differently) from the value's own encoding.
+fn bitmask_of(a: &AVP, inner: &dyn std::fmt::Debug) -> u32 {
+    if let Some(w) = bitmask_word_opt(&inner) {
+        return w;
+    }
+    let mut w = rl2tp::common::VecWriter::new();
+    a.write(&mut w);
+    if w.data.len() >= 10 {
+        u32::from_be_bytes([w.data[6], w.data[7], w.data[8], w.data[9]])
+    } else {
+        0
+    }
 }
 
 fn sa(attr: u16, body: SBody) -> SAvp {
@@ -105,8 +132,8 @@ pub fn avp_to_spec(a: &AVP) -> SAvp {
             },
         ),
         AVP::ProtocolVersion(p) => sa(2, SBody::Version { ver: p.version, rev: p.revision }),
-        AVP::FramingCapabilities(x) => sa(3, SBody::U32(bitmask_word(x))),
-        AVP::BearerCapabilities(x) => sa(4, SBody::U32(bitmask_word(x))),
+        AVP::FramingCapabilities(x) => sa(3, SBody::U32(bitmask_of(a, x))),
+        AVP::BearerCapabilities(x) => sa(4, SBody::U32(bitmask_of(a, x))),
         AVP::TieBreaker(x) => sa(5, SBody::U64(x.value)),
         AVP::FirmwareRevision(x) => sa(6, SBody::U16(x.value)),
         AVP::HostName(x) => sa(7, SBody::Bytes(x.value.clone())),
@@ -120,8 +147,8 @@ pub fn avp_to_spec(a: &AVP) -> SAvp {
         AVP::CallSerialNumber(x) => sa(15, SBody::U32(x.value)),
         AVP::MinimumBps(x) => sa(16, SBody::U32(x.value)),
         AVP::MaximumBps(x) => sa(17, SBody::U32(x.value)),
-        AVP::BearerType(x) => sa(18, SBody::U32(bitmask_word(x))),
-        AVP::FramingType(x) => sa(19, SBody::U32(bitmask_word(x))),
+        AVP::BearerType(x) => sa(18, SBody::U32(bitmask_of(a, x))),
+        AVP::FramingType(x) => sa(19, SBody::U32(bitmask_of(a, x))),
         AVP::CalledNumber(x) => sa(21, SBody::Str(x.value.clone())),
         AVP::CallingNumber(x) => sa(22, SBody::Str(x.value.clone())),
         AVP::SubAddress(x) => sa(23, SBody::Str(x.value.clone())),
